@@ -255,6 +255,16 @@ class Table(Vector):
 			return (0, n_cols)
 		return (n_rows,) + self[0].shape
 
+	def fingerprint(self) -> int:
+		"""Fingerprint of the current cell contents.
+
+		Not memoised at table level: columns are handed out as live views and can
+		be written (or replaced) without the table being told, so a table-level
+		memo would go stale. Each column keeps its own memo, which it clears on
+		every write, so this is O(columns) when nothing changed.
+		"""
+		return self._compute_fingerprint_full()
+
 	def _build_column_map(self):
 		"""Build mapping from sanitized column names to column indices.
 		
